@@ -149,6 +149,44 @@ def flags_for(driver, approved):
     return ",".join(sorted(approved)) if approved else None
 
 
+def _factories(obj, depth=0):
+    """the default factories of all defaultdicts inside obj, in traversal order"""
+    import collections
+
+    out = []
+    if depth > 6:
+        return out
+    if isinstance(obj, collections.defaultdict):
+        out.append(obj.default_factory)
+    if isinstance(obj, dict):
+        for k, v in obj.items():
+            out += _factories(k, depth + 1) + _factories(v, depth + 1)
+    elif isinstance(obj, (list, tuple, set, frozenset)):
+        for v in obj:
+            out += _factories(v, depth + 1)
+    elif hasattr(obj, "__dict__") and not isinstance(obj, type):
+        for v in vars(obj).values():
+            out += _factories(v, depth + 1)
+    return out
+
+
+def _other_factory(a, b):
+    """a == b although they contain defaultdicts with different default factories (dict equality ignores the factory)"""
+    try:
+        fa, fb = _factories(a), _factories(b)
+        return bool(fa or fb) and fa != fb and (a == b or True)
+    except Exception:
+        return False
+
+
+def _site_other_factory(sm):
+    if sm.kind is None:
+        return False
+    if any(_other_factory(sm.src, x) for x in sm.obs):
+        return True
+    return any(_site_other_factory(c) for c in getattr(sm, "_children", []))
+
+
 def execute(case, ctx):
     ctx.persistent = True  # plugin sessions of this history share one directory incl. __pycache__ (logical clock for mtimes, see sim.sync_tree)
     import copy
@@ -300,6 +338,9 @@ def execute(case, ctx):
                 if got_c - want_c == {"fix"} and not (want_c - got_c) and any(positional_call(c.arg_text) for c in smap.values()):
                     # narrow signature of the listed finding
                     sig = "fix-reported-for-unchanged-positional-constructor-argument"
+                elif got_c - want_c == {"fix"} and not (want_c - got_c) and any(_site_other_factory(sm) for sm in m.sites.values()):
+                    # narrow signature of the listed finding: an equal defaultdict whose default_factory differs
+                    sig = "fix-reported-for-equal-defaultdict-with-another-default-factory"
                 viol("categories", sig,
                      f"step {si} driver={driver} approved={sorted(approved)}: reported {sorted(got_c)} but the model says {sorted(want_c)}\n"
                      + "\n".join(f"  {sid} {sm.kind} src={src[sid]!r:.100} obs={[repr(x)[:40] for x in sm.obs][:5]} pending={sorted(sm.pending())}"
